@@ -161,6 +161,12 @@ def check(ctx):
             check_forwarder(ctx, "R10.1", "%s<%s>/forwards-to-array-impl" % (tag, ty), f, "Recombinator::recombine",
                             [lambda a: derives_from_self(a), lambda a: callee_is(a, "From::from", "Into::into") and a[3][0] == ("param", 2), lambda a: rng_passthrough(a, 3)], wrappers=(), allowed_extra=("From::from", "Into::into"))
 
+    check_uniform(ctx)
+    check_bitstring_and_audit(ctx)
+
+
+def check_uniform(ctx):
+    F = ctx.F
     # ---- UniformXo Vec ---------------------------------------------------------
     f = ctx.fn(UX + R % "[std::vec::Vec<T>; 2]")
     for p in [p for p in ctx.paths(f) if p.end != "unreachable"]:
@@ -220,6 +226,10 @@ def check(ctx):
             ctx.check(match(p.ret, Agg("Result::Ok", lambda e: e == G(0))), "R10.4", "UniformXo<G>/child-is-first-parent", short(p.ret), f.at())
     ctx.floor("R10.5", n_x, 1, "UniformXo<G> exchange sites")
 
+
+
+def check_bitstring_and_audit(ctx):
+    F = ctx.F
     # ---- Bitstring ---------------------------------------------------------------------
     f = ctx.fn(BS + "crossover_gene")
     paths = [p for p in ctx.paths(f) if p.end != "unreachable"]
